@@ -2,7 +2,7 @@
 import fcntl, json, os, re, subprocess, tempfile, time
 
 VERIF = os.path.dirname(os.path.dirname(os.path.abspath(__file__)))
-BUILD = os.path.join(VERIF, 'build')
+BUILD = os.environ.get('FIBERSIM_BUILD', os.path.join(VERIF, 'build'))
 REPO = os.environ.get('FIBERSIM_REPO', '/repo')
 
 
@@ -78,7 +78,7 @@ def build():
     os.makedirs(BUILD, exist_ok=True)
     with open(os.path.join(BUILD, '.lock'), 'w') as lk:
         fcntl.flock(lk, fcntl.LOCK_EX)
-        p = subprocess.run(['make', '-C', VERIF, '-j16', '-s', 'REPO=' + REPO], capture_output=True, text=True)
+        p = subprocess.run(['make', '-C', VERIF, '-j16', '-s', 'REPO=' + REPO, 'B=' + BUILD], capture_output=True, text=True)
         if p.returncode != 0:
             return False, (p.stdout + p.stderr)[-4000:]
     return True, ''
